@@ -58,7 +58,7 @@ func runChecks() {
 			cases = append(cases, sc)
 			sc.First = line + 1
 			emit(ev{"ev": "reset", "c": sc.ID, "req": "realm", "schema": marker,
-				"start": map[string]any{"tables": []string{"a"}, "fks": [][3]string{}}, "want": map[string]any{"tables": []string{"a"}, "fks": [][3]string{}}})
+				"start": map[string]any{"tables": []string{"a"}, "fks": [][4]string{}}, "want": map[string]any{"tables": []string{"a"}, "fks": [][4]string{}}})
 			pl, err := planner(d).PlanChanges(context.Background(), "plan", []schema.Change{&schema.ModifyTable{T: t, Changes: cs}})
 			if err != nil {
 				sc.Err = err.Error()
